@@ -8,6 +8,7 @@ Vector, Matrix or SymMatrix BY VALUE, every `return e;` of the live (HAVE_BLAS/H
 (copy constructors of these classes share the LinOpValue buffer).  Output: coq/Gen/GenReturns.v; Properties_C13.v proves that
 every entry except the documented in-place solver is Fresh or Composite.  Unknown shapes are reported, never guessed."""
 import os, re, sys
+SERVES = ("C13",)   # properties whose check reports this translator's problems
 sys.path.insert(0, os.path.join(os.path.dirname(os.path.dirname(os.path.abspath(__file__))), "lib"))
 sys.path.insert(0, os.path.dirname(os.path.abspath(__file__)))
 import gencoq
